@@ -19,7 +19,41 @@ if batlib.REPLAY is not None and batlib.REPLAY.get("kind") != "root":
     sys.exit(0)
 
 
-def root_deleted_inotify():
+class OneRecordPerRead:
+    """os.read on an inotify descriptor hands out one record per call (the reader wakes between any two records - e.g.
+    between the root's IN_DELETE_SELF and the IN_IGNORED that follows it)"""
+
+    def __init__(self):
+        import watchdog.observers.inotify_c as ic
+        self.ic, self.real, self.pending = ic, ic.os.read, {}
+
+    def __enter__(self):
+        import errno
+        real = self.real
+
+        def read(fd, n):
+            if n < 1024:           # the wake-up pipe and other small reads
+                return real(fd, n)
+            # the kernel hands out as many whole records as fit: ask for 16, 32, 48 ... bytes until the first record fits
+            # (EINVAL while it does not) - the rest stays in the kernel queue, so poll() keeps reporting it
+            for size in range(16, 16 + 4096, 16):
+                try:
+                    return real(fd, size)
+                except OSError as e:
+                    if e.errno != errno.EINVAL:
+                        raise
+            return real(fd, n)
+        self.ic.os.read = read
+        return self
+
+    def __exit__(self, *a):
+        self.ic.os.read = self.real
+
+
+def root_deleted_inotify(split=False):
+    if split:
+        with OneRecordPerRead():
+            return root_deleted_inotify(False)
     from watchdog.observers.inotify import InotifyObserver
     from watchdog.events import FileSystemEventHandler, DirDeletedEvent
     errs = []
@@ -61,14 +95,15 @@ def root_deleted_inotify():
 
 
 if batlib.REPLAY is not None:
-    pr = root_deleted_inotify()
+    pr = root_deleted_inotify(batlib.REPLAY.get("split", False))
     batlib.replay_result(bool(pr), pr[:2])
 runpy.run_path(os.path.join(here, "c02_battery.py"), run_name="__main__")
 bat = _captured["bat"]
 bat.failures = [f for f in bat.failures if "moved-in-directory-not-watched" not in f["key"]]
-bat.case("root-deleted-inotify")
-pr = root_deleted_inotify()
-if pr:
-    bat.fail("C07.root-deleted", pr[0], {"kind": "root", "problems": pr[:2]}, "InotifyEmitter.queue_events")
+for split in (False, True):
+    bat.case(("root-deleted-inotify", split))
+    pr = root_deleted_inotify(split)
+    if pr:
+        bat.fail("C07.root-deleted" + ("(one record per read)" if split else ""), pr[0], {"kind": "root", "split": split, "problems": pr[:2]}, "InotifyEmitter.queue_events")
 batlib.Battery.finish = _finish
 bat.finish()
